@@ -139,7 +139,11 @@ def main():
                     def anc(t, pos=pos):
                         k = pos[0] - t.pos.n
                         return k >= 0 and (pos[1] >> k) == t.pos.x and (pos[2] >> k) == t.pos.y
-                    got = [t for t in toast.generate_tiles_filtered(n, anc, bottom_only=True, coordsys=cs) if (t.pos.n, t.pos.x, t.pos.y) == pos]
+                    try:
+                        got = [t for t in toast.generate_tiles_filtered(n, anc, bottom_only=True, coordsys=cs) if (t.pos.n, t.pos.x, t.pos.y) == pos]
+                    except Exception as e:  # noqa
+                        h.violation(f"route:{mode}", f"{nm} system, position {pos} ({mode}): filtered enumeration raised {type(e).__name__}: {e}", input={"pos": pos, "system": nm, "mode": mode})
+                        continue
                     bad = None
                     if (t1.pos.n, t1.pos.x, t1.pos.y) != pos:
                         bad = f"create_single_tile returned position {tuple(t1.pos)}"
@@ -250,15 +254,17 @@ def main():
                 for nm, cs in systems:
                     accs = [None] + [rand_accept(rng, depth) for _ in range(6 if h.deep else 2)]
                     for acc in accs:
-                        with Patched(toast, mid=sym_mid):
-                            if acc is None:
-                                tiles = list(toast.generate_tiles(depth, bottom_only=bool(bo), coordsys=cs))
-                                spec = "*"
-                            else:
-                                tiles = list(toast.generate_tiles_filtered(depth, lambda t: (t.pos.n, t.pos.x, t.pos.y) in acc, bottom_only=bool(bo), coordsys=cs))
-                                spec = ";".join("%d.%d.%d" % p for p in sorted(acc)) or "-"
+                        spec = "*" if acc is None else (";".join("%d.%d.%d" % p for p in sorted(acc)) or "-")
                         lines.append(f"toast gen {nm} {depth} {bo} {spec}")
-                        py.append(" | ".join(tile_str(t) for t in tiles))
+                        try:
+                            with Patched(toast, mid=sym_mid):
+                                if acc is None:
+                                    tiles = list(toast.generate_tiles(depth, bottom_only=bool(bo), coordsys=cs))
+                                else:
+                                    tiles = list(toast.generate_tiles_filtered(depth, lambda t: (t.pos.n, t.pos.x, t.pos.y) in acc, bottom_only=bool(bo), coordsys=cs))
+                            py.append(" | ".join(tile_str(t) for t in tiles))
+                        except Exception as e:  # noqa  (e.g. corners that are not symbolic: state kept from an earlier call)
+                            py.append(f"raised {type(e).__name__}: {str(e)[:80]}")
                         h.case(("gen", nm, depth, bo, spec) if depth >= 2 else None)
                         h.count("route", "enum-sym")
         # descent with scripted scores
@@ -286,11 +292,15 @@ def main():
                 if tile.pos.n <= 1:
                     return real(tile, lat, lon)
                 return float(script[tile.pos.n][(tile.pos.y % 2) * 2 + tile.pos.x % 2])
-            with Patched(toast, mid=sym_mid, _toast_tile_containment_score=scripted):
-                t = toast.toast_tile_for_point(depth, 0.4, quadrant_lon, coordsys=cs)
-            sx, sy = t.pos.x >> (t.pos.n - 1), t.pos.y >> (t.pos.n - 1)
-            lines.append(f"toast lookup {nm} {sy * 2 + sx} " + " ".join(" ".join(str(v) for v in script[lv]) for lv in range(2, depth + 1)))
-            py.append(tile_str(t))
+            try:
+                with Patched(toast, mid=sym_mid, _toast_tile_containment_score=scripted):
+                    t = toast.toast_tile_for_point(depth, 0.4, quadrant_lon, coordsys=cs)
+                sx, sy = t.pos.x >> (t.pos.n - 1), t.pos.y >> (t.pos.n - 1)
+                lines.append(f"toast lookup {nm} {sy * 2 + sx} " + " ".join(" ".join(str(v) for v in script[lv]) for lv in range(2, depth + 1)))
+                py.append(tile_str(t))
+            except Exception as e:  # noqa
+                lines.append(f"toast lookup {nm} 0 " + " ".join(" ".join(str(v) for v in script[lv]) for lv in range(2, depth + 1)))
+                py.append(f"raised {type(e).__name__}: {str(e)[:80]}")
             h.case(("descend", nm, depth, tuple(tuple(script[lv]) for lv in range(2, depth + 1))) if depth >= 2 else None)
             h.count("route", "descent-sym")
         try:
